@@ -4,6 +4,10 @@ Cases:
   {"kind": "align", "start": MOL, "end": MOL, "restr": [[i,j]..], "deform": null | [..], "ignore_h": bool,
    "steps_factor": k, "seed": S, "cls": "..."}       MOL = {"res": str, "names": [..], "pos": [[3]..], "bonds": [[a,b]..]}
   {"kind": "shipped", "pair": "BF4" | "BMIM", "swap": bool, ... same options ...}
+  {"kind": "session", ...}                           one Alignment object driven through setters / init_exchange_map /
+                                                     write_comparative_gro / the unset refusals (harness.alisession)
+  MOL may carry "residues": [[resname, size]..] (multi-residue molecule) and "vel": true; "restr": null together with
+  "auto_guess": bool takes the `restrictions=None` path of align_molecules (guess_protein_restrains).
 
 Real `Molecule` objects are built from .gro/.itp files written into the scratch directory and loaded
 through gaddlemaps' own parsers; `Alignment(start, end).align_molecules(...)` is run under
@@ -11,15 +15,20 @@ through gaddlemaps' own parsers; `Alignment(start, end).align_molecules(...)` is
   * oracle = the clauses of the property on the real code (larger molecule only translated / untouched,
     bonded distances of the other molecule, all pairwise distances without single-atom moves, names and
     order, finiteness, bit-identical repeat under the same seed, caller's objects unmodified);
-  * model  = `alignPrepare` (everything handed to `minimize_molecules`), the search (transition level +
-    whole run, as C09) and the whole `alignMolecules` (final coordinates of both molecules).
+  * model  = `alignPrepareG` (everything handed to `minimize_molecules`, incl. the guessed restraints), the search
+    (transition level + whole run, as C09) and the whole `alignMoleculesG` (final coordinates of both molecules);
+  * after every alignment: `write_comparative_gro` (explicit and default file name, scratch cwd) and
+    `init_exchange_map` on the SAME Alignment object — bytes / map table against `GMModel.Comparative`, and the
+    clauses about them (records, purity, round trip, map of the current stored molecules) on the real objects.
 """
 import os
 
 import numpy as np
 
-from ..common import fbits, hexs, unfbits
+from ..common import fbits, hexs, unfbits, unhexs
 from .. import mcwrap
+from .. import alisession
+from .. import heapgen as hg
 from ..mcwrap import Recorder, GrammarError, parse_run, check_run, cfg_tokens, Reader, same_bits, close_cfg
 
 RULE = ("align: start/end molecules with random-tree bond graphs of 1..40 atoms (either larger, equal sizes, "
@@ -28,7 +37,13 @@ RULE = ("align: start/end molecules with random-tree bond graphs of 1..40 atoms 
         "every non-empty subset (type 2 only with >= 2 mobile atoms), ignore_hydrogens on/off, STEPS_FACTOR "
         "1..50, np.random.seed per case; shipped BF4 and BMIM AA/CG pairs in both orders; a small malformed "
         "stream (disconnected mobile molecule, fixed molecule without bonds / only hydrogens). Non-trivial = "
-        "the search ran at least one iteration; distinct by canonical hash.")
+        "the search ran at least one iteration; distinct by canonical hash. guess: multi-residue start/end molecules "
+        "with restrictions=None (equal residue counts with equal / substring-similar / different names, unequal "
+        "counts, auto_guess off, single-residue start); every alignment is followed by write_comparative_gro "
+        "(explicit + default name) and init_exchange_map on the same object; session: one Alignment object driven "
+        "through 4..10 calls out of {start=, end= (None, non-Molecule, same species, other species), align_molecules "
+        "on an unset side, init_exchange_map, write_comparative_gro (explicit / default / .GRO / no dot / wrong "
+        "extension / sub-directory), coordinate assignments on stored and caller's molecules, AtomGro.gro_line}.")
 
 TOL = 1e-9
 SUBSETS = [(0,), (1,), (2,), (0, 1), (0, 2), (1, 2), (0, 1, 2)]
@@ -167,6 +182,132 @@ def generate(ctx):
         if n_mobile >= 20:
             c["steps_factor"] = min(c["steps_factor"], 10)
         yield c
+    # (new streams are appended AFTER the ones above so that those keep their random stream)
+    # restrictions=None: the automatic restraint guess for multi-residue molecules
+    for i in range(ctx.n(36, 300)):
+        yield _guess_case(rng)
+    # one Alignment object as a state machine
+    for i in range(ctx.n(90, 800)):
+        yield _session_case(rng)
+
+
+RESNAMES = ["ALA", "GLY", "SER", "LYS", "TRP", "W", "PO4", "ASP"]
+
+
+def _layout(rng, k, similar_to=None, mode="equal"):
+    """[[resname, size]..] with k residues; `similar_to`: names taken from / derived from another layout"""
+    out = []
+    for j in range(k):
+        size = rng.randint(1, 4)
+        if similar_to is not None and j < len(similar_to):
+            base = similar_to[j][0]
+            if mode == "equal":
+                name = base
+            elif mode == "substring":
+                name = rng.choice([base + "N", "N" + base, base[:2] or base, base])[:5]
+            else:   # "different": no containment either way
+                name = rng.choice([n for n in RESNAMES if n not in base and base not in n])
+        else:
+            name = rng.choice(RESNAMES)
+        out.append([name, size])
+    return out
+
+
+def _guess_case(rng):
+    k = rng.random()
+    ks = rng.randint(2, 4)
+    if k < 0.12:
+        ks = 1                                                    # single-residue start: no guess at all
+    ls = _layout(rng, ks)
+    if k < 0.12:
+        ke, mode, cls = rng.randint(1, 3), "equal", "guess:single-residue-start"
+    elif k < 0.42:
+        ke, mode, cls = ks, "equal", "guess:equal-names"
+    elif k < 0.57:
+        ke, mode, cls = ks, "substring", "guess:similar-names"
+    elif k < 0.72:
+        ke, mode, cls = ks, "different", "guess:refused:different-names"
+    elif k < 0.9:
+        ke = rng.choice([j for j in (1, 2, 3, 4, 5) if j != ks])
+        mode, cls = "equal", "guess:refused:unequal-residue-count"
+    else:
+        ke, mode, cls = ks, "equal", "guess:equal-names"
+    le = _layout(rng, ke, similar_to=ls, mode=mode)
+    if cls == "guess:similar-names" and all(a[0] == b[0] for a, b in zip(ls, le)):
+        cls = "guess:equal-names"
+    ns, ne = sum(s for _, s in ls), sum(s for _, s in le)
+    auto = rng.random() < 0.85
+    if not auto:
+        cls = "guess:auto-guess-off"
+    start = _mol(rng, ns, "STA", 1.5, 0.2)
+    end = _mol(rng, ne, "END", 1.5, 0.2)
+    start["residues"], end["residues"] = ls, le
+    for m in (start, end):
+        # residues with the same (name, size) must carry the same atom names: the coordinate-file view keeps one
+        # prototype residue per (name, size) (C12)
+        proto, k = {}, 0
+        for rn, size in m["residues"]:
+            names = proto.setdefault((rn, size), m["names"][k:k + size])
+            m["names"][k:k + size] = names
+            k += size
+        if all(n in HNAMES for n in m["names"]):
+            m["names"] = ["C1" if n in HNAMES else n for n in m["names"]]
+    c = {"kind": "align", "start": start, "end": end, "restr": None, "auto_guess": auto, "cls": cls}
+    c.update(_opts(rng, min(ns, ne)))
+    c["steps_factor"] = rng.choice([1, 2, 3])
+    c["reuse"] = False
+    return c
+
+
+SESSION_FILES = [None, None, None, "out.gro", "cmp_file.gro", "UPPER.GRO", "gro", "a.b.gro", "out.pdb", "noext",
+                 "out.gro.txt", "sub/in.gro"]
+OTHER_KINDS = ["residue", "str", "int", "atom", "top", "agro"]
+
+
+def _session_case(rng):
+    """a script for one Alignment object; molecules 0,2 are of species A, 1,3 of species B (same species = same
+    topology, other coordinates)"""
+    sp = [hg.gen_species(rng, "A", 3, 9, rmax=3), hg.gen_species(rng, "B", 3, 9, rmax=3)]
+    mols = [{"sp": k % 2, "vel": rng.random() < 0.4, "seed": rng.randrange(2 ** 31),
+             "resid0": rng.choice([1, 1, 7, 99998]), "big_ids": rng.random() < 0.15} for k in range(4)]
+
+    def arg(side):
+        k = rng.random()
+        if k < 0.12:
+            return ["N"]
+        if k < 0.24:
+            return ["O", rng.choice(OTHER_KINDS)]
+        own = [0, 2] if side == "start" else [1, 3]
+        if k < 0.9:
+            return ["M", rng.choice(own)]
+        return ["M", rng.choice([0, 1, 2, 3])]            # possibly the other species
+
+    k = rng.random()
+    init = [["M", 0], ["M", 1]] if k < 0.55 else [arg("start"), arg("end")] if k < 0.85 else [["N"], ["N"]]
+    ops = []
+    for _ in range(rng.randint(4, 10)):
+        k = rng.random()
+        if k < 0.16:
+            ops.append(["setstart", arg("start")])
+        elif k < 0.32:
+            ops.append(["setend", arg("end")])
+        elif k < 0.40:
+            ops.append(["alignchk"])
+        elif k < 0.55:
+            ops.append(["initmap", rng.choice([0.5, 1.0, 0.25, 2.0])])
+        elif k < 0.78:
+            ops.append(["cmp", rng.choice(SESSION_FILES)])
+        elif k < 0.86:
+            ops.append(["move", rng.choice(["S", "E", 0, 1, 2, 3]), [round(rng.uniform(-3, 3), 3) for _ in range(3)]])
+        elif k < 0.94:
+            ops.append(["setpos", rng.choice(["S", "E", 0, 1]), rng.randrange(2 ** 31),
+                        rng.choice([1.0, 1.0, 30.0, 2000.0])])
+        else:
+            ops.append(["groline", rng.choice(["S", "E", 0, 1, 2, 3])])
+    if not any(o[0] == "cmp" for o in ops):
+        ops.append(["cmp", rng.choice(SESSION_FILES[:5])])
+    return {"kind": "session", "species": sp, "mols": mols, "init": init, "ops": ops,
+            "cls": "session", "seed": rng.randrange(2 ** 31)}
 
 
 # ----------------------------------------------------------------------------- building molecules
@@ -174,18 +315,29 @@ def generate(ctx):
 _uid = [0]
 
 
+def _residue_of_atom(mol):
+    """per atom: (residue number starting at 1, residue name)"""
+    layout = mol.get("residues") or [[mol["res"], len(mol["names"])]]
+    out = []
+    for k, (rn, size) in enumerate(layout):
+        out += [(k + 1, rn)] * int(size)
+    assert len(out) == len(mol["names"])
+    return out
+
+
 def _write(d, tag, mol):
     gro = os.path.join(d, tag + ".gro")
     itp = os.path.join(d, tag + ".itp")
+    ra = _residue_of_atom(mol)
     with open(gro, "w") as f:
         f.write("generated\n%5d\n" % len(mol["names"]))
         for i, (n, p) in enumerate(zip(mol["names"], mol["pos"])):
-            f.write("%5d%-5s%5s%5d%8.3f%8.3f%8.3f\n" % (1, mol["res"], n, i + 1, p[0], p[1], p[2]))
+            f.write("%5d%-5s%5s%5d%8.3f%8.3f%8.3f\n" % (ra[i][0], ra[i][1], n, i + 1, p[0], p[1], p[2]))
         f.write("  20.00000  20.00000  20.00000\n")
     with open(itp, "w") as f:
         f.write("[ moleculetype ]\n; name nrexcl\n%s 1\n\n[ atoms ]\n" % mol["res"])
         for i, n in enumerate(mol["names"]):
-            f.write("%5d  X  1  %s  %s  %d  0.0  1.0\n" % (i + 1, mol["res"], n, i + 1))
+            f.write("%5d  X  %d  %s  %s  %d  0.0  1.0\n" % (i + 1, ra[i][0], ra[i][1], n, i + 1))
         f.write("\n[ bonds ]\n")
         for a, b in mol["bonds"]:
             f.write("%5d %5d 1 0.1 1000\n" % (a + 1, b + 1))
@@ -193,11 +345,15 @@ def _write(d, tag, mol):
     return gro, itp
 
 
-def build(ctx, mol):
+def build(ctx, mol, vel=False):
     from gaddlemaps.components import Molecule
     _uid[0] += 1
     m = Molecule.from_files(*_write(ctx.scratch, f"m{_uid[0]}", mol))
     m.atoms_positions = np.array(mol["pos"], dtype=float).reshape(-1, 3)   # full-precision coordinates
+    if vel or mol.get("vel"):
+        # velocities on the caller's molecule: the alignment must carry them along untouched, the comparative
+        # file must drop them
+        m.atoms_velocities = np.array(mol["pos"], dtype=float).reshape(-1, 3)[::-1] * 0.25 - 0.125
     return m
 
 
@@ -216,14 +372,19 @@ def shipped(pair, swap):
 
 
 def snapshot(m):
+    v = m.atoms_velocities
     return {"pos": np.array(m.atoms_positions, dtype=float, copy=True),
+            "vel": None if v is None else np.array(v, dtype=float, copy=True),
+            "resids": [a.gro_resid for a in m],
             "names": [a.name for a in m], "resnames": [a.resname for a in m],
             "ids": list(m.atoms_ids), "bonds": [sorted(a.bonds) for a in m], "n": len(m)}
 
 
 def same_snapshot(a, b):
+    if (a["vel"] is None) != (b["vel"] is None) or (a["vel"] is not None and not same_bits(a["vel"], b["vel"])):
+        return False
     return (same_bits(a["pos"], b["pos"]) and a["names"] == b["names"] and a["resnames"] == b["resnames"]
-            and a["ids"] == b["ids"] and a["bonds"] == b["bonds"] and a["n"] == b["n"])
+            and a["ids"] == b["ids"] and a["bonds"] == b["bonds"] and a["n"] == b["n"] and a["resids"] == b["resids"])
 
 
 def mol_tokens(m):
@@ -278,23 +439,25 @@ def run_alignment(start, end, case):
             ali.STEPS_FACTOR = 2
             np.random.seed(12345)
             with np.errstate(all="ignore"):
-                ali.align_molecules(restrictions=[tuple(r) for r in case["restr"]],
+                ali.align_molecules(restrictions=None if case["restr"] is None else [tuple(r) for r in case["restr"]],
                                     deformation_types=None if case["deform"] is None else tuple(case["deform"]),
-                                    ignore_hydrogens=bool(case["ignore_h"]))
+                                    ignore_hydrogens=bool(case["ignore_h"]),
+                                    auto_guess_protein_restrictions=bool(case.get("auto_guess", True)))
         except Exception:   # noqa: BLE001  (the decoy run is not the case under test)
             pass
         ali.start = start
         ali.end = end
     ali.STEPS_FACTOR = int(case["steps_factor"])
     init = (snapshot(ali.start), snapshot(ali.end))
-    restr = [tuple(r) for r in case["restr"]]
+    restr = None if case["restr"] is None else [tuple(r) for r in case["restr"]]
     deform = None if case["deform"] is None else tuple(case["deform"])
     np.random.seed(case["seed"])
     err = None
     with Recorder() as rec:
         try:
             ali.align_molecules(restrictions=restr, deformation_types=deform,
-                                ignore_hydrogens=bool(case["ignore_h"]))
+                                ignore_hydrogens=bool(case["ignore_h"]),
+                                auto_guess_protein_restrictions=bool(case.get("auto_guess", True)))
         except Exception as e:   # noqa: BLE001
             err = e
     return ali, init, rec, err
@@ -312,10 +475,13 @@ NOTES = [
 
 def evaluate(ctx, case):
     ctx.extra["correspondence_notes"] = NOTES
+    if case["kind"] == "session":
+        return _eval_session(ctx, case)
     if case["kind"] == "shipped":
         start, end = shipped(case["pair"], case["swap"])
     else:
-        start, end = build(ctx, case["start"]), build(ctx, case["end"])
+        with_vel = int(case["seed"]) % 2 == 1
+        start, end = build(ctx, case["start"], with_vel), build(ctx, case["end"], with_vel and int(case["seed"]) % 4 == 1)
     cls = case.get("cls", "?")
     ctx.count("class:" + cls)
     if case.get("reuse") or (case.get("reuse") is None and int(case["seed"]) % 3 == 0 and not cls.startswith("malformed")):
@@ -334,12 +500,17 @@ def evaluate(ctx, case):
 
     # the model's view of the inputs (taken from the Alignment's own copies before the call)
     sf = int(case["steps_factor"])
-    restr = [tuple(int(x) for x in r) for r in case["restr"]]
+    restr = None if case["restr"] is None else [tuple(int(x) for x in r) for r in case["restr"]]
+    auto_guess = bool(case.get("auto_guess", True))
     common_toks = " ".join([
         _mol_tokens_from(s0, ali.start), _mol_tokens_from(e0, ali.end),
-        " ".join([str(len(restr))] + [f"{a} {b}" for a, b in restr]),
+        _layout_tokens(ali.start), _layout_tokens(ali.end),
+        "-1" if restr is None else " ".join(["0", str(len(restr))] + [f"{a} {b}" for a, b in restr]),
         "-1" if deform is None else " ".join(["0", str(len(deform))] + [str(int(d)) for d in deform]),
-        "1" if case["ignore_h"] else "0"])
+        "1" if case["ignore_h"] else "0", "1" if auto_guess else "0"])
+    if restr is None:
+        ctx.count("restrictions=None:" + ("multi-residue-start" if len(ali.start.resnames) > 1 else "single-residue-start")
+                  + (":auto-guess-off" if not auto_guess else ""))
 
     if not same_snapshot(caller0[0], caller1[0]) or not same_snapshot(caller0[1], caller1[1]):
         fail("caller-molecules-modified")
@@ -355,7 +526,17 @@ def evaluate(ctx, case):
             mcwrap.disagree(ctx, case, "search still running after budget+1 iterations without a new minimum",
                             str(err)[:200], "exit")
             return
-        if not cls.startswith("malformed"):
+        if cls.startswith("guess:refused"):
+            # the documented refusal of the automatic guess: IOError carrying the advice to switch the guess off,
+            # raised before anything was moved
+            ctx.count("guess-refused:" + name)
+            if not isinstance(err, OSError):
+                fail("guess-refusal-is-not-an-IOError", name)
+            elif "auto_guess_protein_restrictions" not in str(err) or "can not be guessed" not in str(err):
+                fail("guess-refusal-lost-its-message", str(err)[:200])
+            if not same_snapshot(snapshot(ali.start), s0) or not same_snapshot(snapshot(ali.end), e0):
+                fail("guess-refusal-after-molecules-were-moved")
+        elif not cls.startswith("malformed"):
             fail("raises-" + name, str(err)[:200])
         ctx.oracle_ok(2)
         for k, d in fails.items():
@@ -365,8 +546,10 @@ def evaluate(ctx, case):
             if status != "err" or toks[0] != name:
                 mcwrap.disagree(ctx, case, "align_molecules error class", name, [status] + toks[:1])
         # errors before the search come out of the plan; errors inside come out of the whole run
-        ctx.model.ask("align_run", f"{sf} {fbits(ali.SIGMA_SCALE)} {common_toks} 0 0 0", cb, case)
+        ctx.model.ask("align_run_g", f"{sf} {fbits(ali.SIGMA_SCALE)} {common_toks} 0 0 0", cb, case)
         return
+    if cls.startswith("guess:refused"):
+        fail("guess-not-refused", cls)
 
     s1, e1 = snapshot(ali.start), snapshot(ali.end)
     mcall = next((e[1] for e in rec.events if e[0] == "minimize_call"), None)
@@ -381,7 +564,8 @@ def evaluate(ctx, case):
     K = len(run.steps) if run else 0
     ctx.case(case, nontrivial=K > 0,
              sample={"n_start": ns, "n_end": ne, "deform": deform, "ignore_h": case["ignore_h"],
-                     "steps_factor": sf, "restr": case["restr"][:4], "iterations": K, "cls": cls})
+                     "steps_factor": sf, "restr": None if case["restr"] is None else case["restr"][:4], "iterations": K,
+                     "cls": cls})
     ctx.count("deform:" + ("default" if deform is None else "".join(str(d) for d in sorted(set(deform)))))
     ctx.count("ignore_h:" + str(bool(case["ignore_h"])))
     ctx.count("roles:" + ("early-return" if ne == 1 else "mobile=start" if small_is_start else "mobile=end"))
@@ -434,6 +618,9 @@ def evaluate(ctx, case):
     ctx.oracle_ok(9)
     for k, d in fails.items():
         ctx.oracle_fail("align:" + k, case, d)
+
+    # ---------------- the same Alignment object afterwards: write_comparative_gro, init_exchange_map
+    _after_alignment(ctx, case, start, end, ali)
 
     # ---------------- model: the plan handed to the backend
     def cb_plan(status, toks, case):
@@ -500,7 +687,7 @@ def evaluate(ctx, case):
             mcwrap.disagree(ctx, case, "align_plan: " + ",".join(bad),
                          {k: mcall[k] for k in ("restr", "n_steps", "width", "sim_type")},
                          {"restr": mrestr, "n_steps": nsteps, "width": width, "sim_type": sim})
-    ctx.model.ask("align_plan", f"{sf} {common_toks}", cb_plan, case)
+    ctx.model.ask("align_plan_g", f"{sf} {common_toks}", cb_plan, case)
 
     # ---------------- model: the search, transition level, and the whole alignment
     if run is not None and mcall is not None:
@@ -535,7 +722,7 @@ def evaluate(ctx, case):
                         mcwrap.disagree(ctx, case, "align_run: final coordinates of start/end (1e-9), tape leftover",
                                      {"start": s1["pos"], "end": e1["pos"]}, {"start": ms, "end": me, "left": left})
                 ctx.count("model:whole-alignment-replays")
-                ctx.model.ask("align_run", req, cb_run, case)
+                ctx.model.ask("align_run_g", req, cb_run, case)
         except GrammarError as ex:
             mcwrap.disagree(ctx, case, f"align_run cannot be encoded: {ex}", None, None)
     elif mcall is None:
@@ -549,7 +736,207 @@ def evaluate(ctx, case):
             if not close_cfg(ms, s1["pos"]) or not same_bits(me, e1["pos"]):
                 mcwrap.disagree(ctx, case, "align_run (early return): final coordinates", {"start": s1["pos"], "end": e1["pos"]},
                              {"start": ms, "end": me})
-        ctx.model.ask("align_run", f"{sf} {fbits(ali.SIGMA_SCALE)} {common_toks} 0 0 0", cb_early, case)
+        ctx.model.ask("align_run_g", f"{sf} {fbits(ali.SIGMA_SCALE)} {common_toks} 0 0 0", cb_early, case)
+
+
+def _layout_tokens(m):
+    """[(residue name, number of atoms)] as `guess_protein_restrains` sees the molecule"""
+    rs = [(str(r.resname), len(r)) for r in m.residues]
+    return " ".join([str(len(rs))] + [f"{hexs(n)} {k}" for n, k in rs])
+
+
+_sid = [0]
+
+
+def _workdir(ctx):
+    _sid[0] += 1
+    d = os.path.join(ctx.scratch, f"ali{_sid[0]}")
+    os.makedirs(os.path.join(d, "sub"), exist_ok=True)
+    return d
+
+
+def _report_session(ctx, case, w, prefix):
+    ctx.oracle_ok(max(1, w.oracle_checks))
+    for k, d in w.fails.items():
+        ctx.oracle_fail(f"{prefix}:{k}", case, d)
+
+
+def _after_alignment(ctx, case, start, end, ali):
+    """`write_comparative_gro` (explicit, then default file name) and `init_exchange_map` on the Alignment object
+    that has just aligned its molecules.  The model is given the same history: the caller's molecules, the two
+    copy-on-set assignments, the coordinates the alignment left in the stored molecules."""
+    w = alisession.AliWorld(ctx, _workdir(ctx))
+    w.load(start, "caller's start")
+    w.load(end, "caller's end")
+    w.ali = ali
+    w.env += [ali.start, ali.end]
+    w.record("setstart M 0", "Alignment(start, ·)", "ok")
+    w.snaps[-1] = None
+    w.record("setend M 1", "Alignment(·, end)", "ok")
+    w.snaps[-1] = None
+    w.mirror_positions(2, ali.start.atoms_positions)
+    w.snaps[-1] = None
+    w.mirror_positions(3, ali.end.atoms_positions)
+    explicit = f"aligned_{int(case['seed']) % 1000}.gro"
+    w.comparative(explicit)
+    w.comparative(None)
+    ctx.count("after-alignment:write_comparative_gro", 2)
+    if len(ali.start) >= 3 and len(ali.end) >= 3:
+        w.init_map(0.5 if int(case["seed"]) % 2 else 1.0)
+        ctx.count("after-alignment:init_exchange_map")
+        w.comparative(explicit)          # the map does not change what is written
+    _report_session(ctx, case, w, "after-align")
+    alisession.ask(ctx, case, w, "after-align")
+
+
+def _species_mol(ctx, d, k, sp, spec):
+    """a Molecule of species `sp` loaded through the library's parsers from files written here"""
+    import random
+    from gaddlemaps.components import Molecule
+    r = random.Random(spec["seed"])
+    lines = hg.molecule_lines(r, sp, "float", spec["resid0"] if spec["resid0"] < 90000 else 1, 1, spec["vel"],
+                              centre=[r.uniform(-2, 2) for _ in range(3)], spread=1.0)
+    gro = os.path.join(d, f"m{k}.gro")
+    itp = os.path.join(d, f"sp{spec['sp']}.itp")
+    hg.write_gro(gro, lines)
+    hg.write_itp(itp, sp)
+    m = Molecule.from_files(gro, itp)
+    if spec["resid0"] >= 90000:
+        m.resids = [spec["resid0"] + j for j in range(len(m.resids))]     # residue numbers around 100000
+    if spec.get("big_ids"):
+        m.atoms_ids = [99997 + j for j in range(len(m))]                   # atom numbers crossing 99999
+    return m
+
+
+def _eval_session(ctx, case):
+    """one Alignment object driven through a script (see harness.alisession)"""
+    import random
+    d = _workdir(ctx)
+    w = alisession.AliWorld(ctx, d)
+    loaded = []
+    for k, spec in enumerate(case["mols"]):
+        m = _species_mol(ctx, d, k, case["species"][spec["sp"]], spec)
+        w.load(m, f"molecule {k} (species {spec['sp']})")
+        loaded.append(hg.observe(m))
+    touched = set()
+    w.new_alignment(case["init"][0], case["init"][1])
+    ctx.count("session:init:" + "/".join(a[0] for a in case["init"]))
+
+    def target(t):
+        if t == "S":
+            obj = w.ali.start
+        elif t == "E":
+            obj = w.ali.end
+        else:
+            touched.add(int(t))
+            return int(t)
+        return next((i for i, o in enumerate(w.env) if o is obj), None) if obj is not None else None
+
+    for op in case["ops"]:
+        try:
+            _session_op(ctx, case, w, op, target)
+        except Exception as e:   # noqa: BLE001
+            # an earlier call left a live molecule in a state in which the harness itself cannot use it any more
+            # (e.g. a topology renamed behind its back): that earlier call's own oracle has recorded why
+            w.fail("live-molecule-unusable-after-an-alignment-call", f"{type(e).__name__}: {str(e)[:160]}")
+            break
+    # the molecules the caller supplied are never modified by the Alignment (those the script itself assigned to
+    # are exempt)
+    w.oracle_checks += 1
+    for k, ob in enumerate(loaded):
+        if k not in touched and not hg.bits_equal(ob, hg.observe(w.env[k])):
+            w.fail("caller-molecule-modified", {"molecule": k})
+    ncmp = sum(1 for o, st in zip(w.ops, w.status) if o.startswith("cmp") and st == "ok")
+    ctx.case({k: case[k] for k in ("init", "ops", "seed", "mols")}, nontrivial=ncmp > 0 or "initmap" in " ".join(w.ops),
+             sample={"init": case["init"], "calls": w.desc[len(case["mols"]):][:12], "status": w.status[len(case["mols"]):][:12]})
+    _report_session(ctx, case, w, "session")
+    alisession.ask(ctx, case, w, "session")
+
+
+def _session_op(ctx, case, w, op, target):
+    import random
+    k = op[0]
+    if k in ("setstart", "setend"):
+        st = w.set_side(k[3:], op[1])
+        ctx.count(f"session:{k}:{op[1][0]}:{st}")
+    elif k == "alignchk":
+        w.align_check()
+        ctx.count("session:align_molecules-unset:" + w.status[-1])
+    elif k == "initmap":
+        st = w.init_map(float(op[1]))
+        ctx.count("session:init_exchange_map:" + st)
+    elif k == "cmp":
+        st = w.comparative(op[1])
+        ext = "default" if op[1] is None else ("sub-directory" if "/" in op[1] else op[1].split(".")[-1])
+        ctx.count(f"session:write_comparative_gro:{ext}:{st}")
+    elif k in ("move", "setpos"):
+        i = target(op[1])
+        if i is None:
+            return
+        if k == "move":
+            w.hop_move(i, op[2])
+        else:
+            r = random.Random(op[2])
+            n = len(w.env[i])
+            w.hop_setpos(i, [[r.uniform(-1, 1) * op[3] for _ in range(3)] for _ in range(n)])
+        ctx.count(f"session:{k}:" + ("stored" if op[1] in ("S", "E") else "caller's"))
+    elif k == "groline":
+        obj = w.ali.start if op[1] == "S" else w.ali.end if op[1] == "E" else w.env[int(op[1])]
+        if obj is not None:
+            _gro_lines(ctx, case, w, obj)
+
+
+def _gro_lines(ctx, case, w, mol):
+    """AtomGro.gro_line(parsed=True / False) for every AtomGro of a molecule"""
+    from ..grogen import py_line
+    for ag in hg.gro_atoms(mol):
+        g = hg._gro_obs(ag)
+        want = [g[0], g[1], g[2], g[3]] + list(g[4]) + (list(g[5]) if g[5] is not None else [])
+        got = ag.gro_line()
+        w.oracle_checks += 1
+        if not (isinstance(got, list) and len(got) == len(want) and got[:4] == want[:4]
+                and all(fbits(float(a)) == fbits(float(b)) for a, b in zip(got[4:], want[4:]))):
+            w.fail("gro_line:parsed-record", {"got": str(got)[:200], "expected": str(want)[:200]})
+        try:
+            text, terr = ag.gro_line(parsed=False), None
+        except Exception as e:   # noqa: BLE001
+            text, terr = None, hg.exc_name(e)
+        if text is not None and all(np.isfinite(float(c)) for c in want[4:]):
+            if text != py_line(want, 8, 3):
+                w.fail("gro_line:text", {"got": text, "expected": py_line(want, 8, 3)})
+        ctx.count("gro_line:" + ("with-velocities" if g[5] is not None else "no-velocities"))
+
+        def cb(status, toks, case, got=got, text=text, terr=terr, g=g):
+            if status != "ok":
+                ctx.disagree(case, "agro_line", "ok", [status] + toks[:2])
+                return
+            cur = hg.Cursor(toks)
+            if cur.tok() != "P":
+                return                      # a non-finite value: outside the writer model
+            rid = cur.int(); rn = cur.str(); nm = cur.str(); aid = cur.int()
+            from fractions import Fraction
+            vals = []
+            for _ in range(3):
+                sgn, man, ex = cur.int(), cur.int(), cur.int()
+                vals.append((-1 if sgn else 1) * Fraction(man) * Fraction(2) ** ex)
+            nv = cur.int()
+            for _ in range(3 * nv):
+                sgn, man, ex = cur.int(), cur.int(), cur.int()
+                vals.append((-1 if sgn else 1) * Fraction(man) * Fraction(2) ** ex)
+            if [rid, rn, nm, aid] != got[:4] or [Fraction(float(x)) for x in got[4:]] != vals:
+                ctx.disagree(case, "AtomGro.gro_line(): record", str(got)[:200], [rid, rn, nm, aid, [float(v) for v in vals]])
+                return
+            assert cur.tok() == "T"
+            st = cur.tok()
+            if st == "ok":
+                mt = cur.str()
+                if text is None or mt != text:
+                    ctx.disagree(case, "AtomGro.gro_line(parsed=False): text", text if text is not None else terr, mt)
+            else:
+                e = cur.tok()
+                if terr != e:
+                    ctx.disagree(case, "AtomGro.gro_line(parsed=False): exception class", terr, e)
+        ctx.model.ask("agro_line", hg.tok_gro(g), cb, case)
 
 
 def _mol_tokens_from(snap, m):
